@@ -1,5 +1,7 @@
 #![allow(dead_code)]
+mod gram;
 mod lex;
+mod parse;
 mod util;
 
 fn main() {
@@ -9,6 +11,13 @@ fn main() {
     match cmd {
         "lex-replay" => lex::replay(rest),
         "lex-record" => lex::record(rest),
+        "gram-replay" => gram::replay(rest),
+        "gram-record" => gram::record(rest),
+        "gram-text" => gram::text_cmd(rest),
+        "gram-record-text" => gram::record_text(rest),
+        "parse-run" => parse::isolated(rest, "parse-child"),
+        "parse-child" => parse::child(rest),
+        "parse-gen" => parse::gen(rest),
         _ => {
             eprintln!("unknown command {cmd:?}");
             std::process::exit(2);
